@@ -172,6 +172,17 @@ def build(libtype, node, v, f=None, enum_members=True):
     raise ValueError(k)
 
 
+def alt_form(libv, node, rng):
+    """Another accepted spelling of the same field value: char data as a (latin-1) str, a single char as an int."""
+    k = node["k"]
+    if k == "char" and isinstance(libv, bytes) and len(libv) == 1:
+        x = rng.random()
+        return libv.decode("latin-1") if x < 0.4 else libv[0] if x < 0.7 else libv
+    if k == "array" and node["elem"]["k"] == "char" and isinstance(libv, bytes) and rng.random() < 0.6:
+        return libv.decode("latin-1")
+    return libv
+
+
 def parse_at(T, data, offset=0, stream=None):
     """-> ("ok", obj, tell) | ("err", exc)"""
     s = stream if stream is not None else io.BytesIO(data)
